@@ -90,8 +90,15 @@ fn angle() -> Shape {
 fn quat() -> Shape {
     st(&[("v", vecn(3)), ("s", Shape::Scalar)])
 }
+/// Basis2/Basis3 wrap a matrix in one private field whose name is not part of the statement: it is read off a
+/// serialized value instead of being assumed
 fn basis(n: usize) -> Shape {
-    Shape::Struct(vec![("mat", false, matn(n))])
+    let toks = if n == 2 { to_tokens(&<Basis2<f64> as cgmath::Rotation2>::from_angle(Rad(0.0))) } else { to_tokens(&Basis3::<f64>::from_quaternion(&Quaternion::new(1.0, 0.0, 0.0, 0.0))) };
+    let name: &'static str = match toks.ok().and_then(|t| t.into_iter().find_map(|x| if let Tok::Field(f) = x { Some(f) } else { None })) {
+        Some(f) => Box::leak(f.into_boxed_str()),
+        None => "mat",
+    };
+    Shape::Struct(vec![(name, false, matn(n))])
 }
 fn decomposed(rot: Shape, n: usize) -> Shape {
     st(&[("scale", Shape::Scalar), ("rot", rot), ("disp", vecn(n))])
@@ -105,7 +112,7 @@ fn tokens_of<S: Sc>(shape: &Shape, comps: &[S], pos: &mut usize, out: &mut Vec<T
             *pos += 1;
         }
         Shape::Newtype(inner) => {
-            out.push(Tok::Newtype("?"));
+            // a bare number: what both a derived newtype impl and a `transparent` one accept
             tokens_of(inner, comps, pos, out);
         }
         Shape::Struct(fs) => {
@@ -125,7 +132,28 @@ fn count(shape: &Shape) -> usize {
         Shape::Struct(fs) => fs.iter().map(|(_, _, s)| count(s)).sum(),
     }
 }
-/// compare a recorded token stream with the expected shape; returns the scalars found
+/// end (exclusive) of the value starting at `pos`
+fn value_end(toks: &[Tok], pos: usize) -> Result<usize, String> {
+    match toks.get(pos) {
+        None => Err("token stream ends early".to_string()),
+        Some(Tok::Struct(..)) => {
+            let mut p = pos + 1;
+            loop {
+                match toks.get(p) {
+                    Some(Tok::End) => return Ok(p + 1),
+                    Some(Tok::Field(_)) => p = value_end(toks, p + 1)?,
+                    other => return Err(format!("malformed struct: {:?}", other)),
+                }
+            }
+        }
+        Some(Tok::Newtype(_)) => value_end(toks, pos + 1),
+        Some(Tok::Field(_)) | Some(Tok::End) => Err("a value expected".to_string()),
+        Some(_) => Ok(pos + 1),
+    }
+}
+/// compare a recorded token stream with the expected shape; returns the scalars found, in the order of the shape.
+/// What the statement fixes is judged: field names and nesting, bare numbers at the leaves. What it leaves open is
+/// not: the order in which a struct emits its fields, whether a transparent wrapper announces itself as a newtype.
 fn match_shape<S: Sc>(shape: &Shape, toks: &[Tok], pos: &mut usize, path: &str, scalars: &mut Vec<Tok>) -> Result<(), String> {
     let next = |pos: &mut usize| -> Result<Tok, String> {
         let t = toks.get(*pos).cloned().ok_or_else(|| format!("{path}: token stream ends early"))?;
@@ -144,9 +172,8 @@ fn match_shape<S: Sc>(shape: &Shape, toks: &[Tok], pos: &mut usize, path: &str, 
             }
         }
         Shape::Newtype(inner) => {
-            match next(pos)? {
-                Tok::Newtype(_) => {}
-                other => return Err(format!("{path}: a transparent newtype (bare number) expected, found {:?}", other)),
+            if let Some(Tok::Newtype(_)) = toks.get(*pos) {
+                *pos += 1;
             }
             match_shape::<S>(inner, toks, pos, path, scalars)
         }
@@ -155,17 +182,39 @@ fn match_shape<S: Sc>(shape: &Shape, toks: &[Tok], pos: &mut usize, path: &str, 
                 Tok::Struct(_, len) if len == fs.len() => {}
                 other => return Err(format!("{path}: a struct with {} fields expected, found {:?}", fs.len(), other)),
             }
-            for (n, judged, s) in fs {
+            let mut found: Vec<Option<Vec<Tok>>> = vec![None; fs.len()];
+            loop {
                 match next(pos)? {
-                    Tok::Field(f) if f == *n || !*judged => {}
-                    other => return Err(format!("{path}: field `{n}` expected, found {:?}", other)),
+                    Tok::End => break,
+                    Tok::Field(f) => {
+                        // a judged field is found by its name; the single unjudged one (Basis) by being the only one
+                        let k = fs.iter().position(|(n, judged, _)| *judged && *n == f).or_else(|| fs.iter().position(|(_, judged, _)| !*judged));
+                        let k = match k {
+                            Some(k) if found[k].is_none() => k,
+                            Some(_) => return Err(format!("{path}: field `{f}` serialized twice")),
+                            None => return Err(format!("{path}: unexpected field `{f}` (expected {:?})", fs.iter().map(|x| x.0).collect::<Vec<_>>())),
+                        };
+                        let end = value_end(toks, *pos).map_err(|e| format!("{path}.{f}: {e}"))?;
+                        let mut sub = Vec::new();
+                        let mut p2 = 0;
+                        let slice = &toks[*pos..end];
+                        match_shape::<S>(&fs[k].2, slice, &mut p2, &format!("{path}.{f}"), &mut sub)?;
+                        if p2 != slice.len() {
+                            return Err(format!("{path}.{f}: {} extra tokens", slice.len() - p2));
+                        }
+                        found[k] = Some(sub);
+                        *pos = end;
+                    }
+                    other => return Err(format!("{path}: field or end of struct expected, found {:?}", other)),
                 }
-                match_shape::<S>(s, toks, pos, &format!("{path}.{n}"), scalars)?;
             }
-            match next(pos)? {
-                Tok::End => Ok(()),
-                other => Err(format!("{path}: end of struct expected, found {:?}", other)),
+            for (k, f) in found.into_iter().enumerate() {
+                match f {
+                    Some(sub) => scalars.extend(sub),
+                    None => return Err(format!("{path}: field `{}` missing", fs[k].0)),
+                }
             }
+            Ok(())
         }
     }
 }
@@ -344,7 +393,7 @@ fn roundtrip<S: Sc>(rep: &mut Report, cfgs: &[Cfg<S>]) {
 fn protocol(rep: &mut Report) {
     type D = Decomposed<Vector3<f64>, Quaternion<f64>>;
     // the three fields and names that are not fields: an arbitrary one, plausible aliases, another letter case, a padded name
-    let keys4 = ["scale", "rot", "disp", "bogus", "rotation", "Scale", "translation", " disp"];
+    let keys4 = ["scale", "rot", "disp", "bogus", "rotation", "Scale", "translation", " disp", "ROT", "Disp", "scal", "scale ", "rot_", "displacement", "s"];
     let nk = keys4.len();
     let value_toks = |k: &str| -> Vec<Tok> {
         let mut out = Vec::new();
@@ -361,7 +410,7 @@ fn protocol(rep: &mut Report) {
     rep.bfs(
         "protocol/Decomposed",
         "S",
-        "deserializer driven with every key sequence of length <= 4 over {scale, rot, disp, and five names that are not fields: bogus, rotation, Scale, translation, ' disp'}; reference: three-flag automaton (accept iff no unknown key and all three present)",
+        "deserializer driven with every key sequence of length <= 4 over {scale, rot, disp, and twelve names that are not fields: an arbitrary one, aliases, other letter cases, prefixes, suffixes, padded names}, human-readable and not; reference: three-flag automaton (accept iff no unknown key and all three present)",
         inits,
         nk,
         4,
@@ -379,7 +428,15 @@ fn protocol(rep: &mut Report) {
             }
             toks.push(Tok::End);
             ctx.out(st);
+            // the same verdict whether or not the format calls itself human readable
+            let res_nh = guarded(|| from_tokens_as::<D>(&toks, false));
             let res = guarded(|| from_tokens::<D>(&toks));
+            if let (Ok(a), Ok(b)) = (&res, &res_nh) {
+                ctx.t();
+                if a.is_ok() != b.is_ok() {
+                    ctx.fail(&key("protocol/same-verdict-when-not-human-readable"), || format!("keys {:?}: human readable {}, not human readable {}", st.iter().map(|k| keys4[*k]).collect::<Vec<_>>(), if a.is_ok() { "accepted" } else { "rejected" }, if b.is_ok() { "accepted" } else { "rejected" }));
+                }
+            }
             let res = match res {
                 Ok(r) => r,
                 Err(p) => {
